@@ -204,6 +204,10 @@ class ScriptedBackend(TrialBackend):
 
     def _resume_trial(self, trial_id: int):
         self.pause_flag.discard(trial_id)
+        # a stop from outside concerned the previous run: the resumed run is a new job
+        if trial_id in self.ext_stopped:
+            self.ext_stopped.discard(trial_id)
+            self.stop_flag.discard(trial_id)
 
     def copy_checkpoint(self, src_trial_id: int, tgt_trial_id: int):
         if self.ckpt.get(src_trial_id) == "present":
